@@ -478,5 +478,6 @@ def run(chk):
         return True, "", sites
     chk.ob("C11.R9:period-from-own-name", "an opened file's period is parsed from the name of the very path that was opened", r9)
 
+    common.builder_rules(chk, P, "C11", lambda b: b.key.startswith("emit_file::FileSetBuilder::"), 7)
     common.arg_agreement_rule(chk, P, "C11", [("emit_file", None)], 5)
     return chk
